@@ -315,9 +315,11 @@ func init() {
 			bfs("lsm", 4, 30, prm("oracle", "c12", "mode", "normal", "keys", 2, "reopen", true, "snapshots", false, "ops", "Sa Da F C0 R RC")),
 			bfs("lsm", 2, 30, prm("oracle", "c12", "mode", "normal", "keys", 2, "big", true, "gc", true, "vlog_max_entries", 1, "reopen", true, "readonly", true, "snapshots", false, "ops", "Ba F C0 G R RO RC"), seq("Ba Bb F G F"), seq("Ba Bb F G"))},
 		[]Stage{bfs("lsm", 6, 900, prm("oracle", "c12", "keys", 2, "reopen", true, "readonly", true, "big", true, "ops", "Sa Sb Ba Da F C0 C1 T R RO")), bfs("lsm", 6, 600, prm("oracle", "c12", "mode", "normal", "keys", 2, "reopen", true, "readonly", true, "ops", "Sa Sb Da F C0 C1 R RO")), bfs("lsm", 5, 600, prm("oracle", "c12", "keys", 2, "reopen", true, "closecompact", true, "ops", "Sa Sb Da F C0 T R CX"))})
-	planTable["C37"] = lsmPlan("The managed- and normal-mode operation-sequence spaces of C12/C01 are executed on an InMemory database against the SAME reference model that the on-disk runs are checked against (so both modes agree on every read at every step); the DropPrefix / DropAll search of C29 is run in memory as well; after every transition the process must hold no regular file open (scan of /proc/self/fd) and its scratch directory must still be empty.",
+	planTable["C37"] = lsmPlan("The managed- and normal-mode operation-sequence spaces of C12/C01 are executed on an InMemory database (the normal-mode one with the SyncWrites option set, as an application sharing one Options value between its on-disk and in-memory instances would) against the SAME reference model that the on-disk runs are checked against (so both modes agree on every read at every step); the DropPrefix / DropAll search of C29 is run in memory as well, and the Backup/Load enumeration of C24 loads every full backup of an on-disk source into an InMemory database too; after every transition the process must hold no regular file open (scan of /proc/self/fd) and its scratch directory must still be empty.",
 		stateRule,
-		[]Stage{bfs("lsm", 5, 40, prm("oracle", "c12", "keys", 2, "inmemory", true, "nofiles", true)), bfs("lsm", 5, 40, prm("oracle", "c12", "mode", "normal", "keys", 2, "inmemory", true, "nofiles", true, "ops", "Sa Sb Da F C0 C1 O X")),
+		[]Stage{bfs("lsm", 5, 40, prm("oracle", "c12", "keys", 2, "inmemory", true, "nofiles", true)), bfs("lsm", 5, 40, prm("oracle", "c12", "mode", "normal", "keys", 2, "inmemory", true, "nofiles", true, "sync_writes", true, "ops", "Sa Sb Da F C0 C1 O X")),
+			// a backup taken from an on-disk database (values in its value log) loaded into an InMemory one
+			en("c24seq", 16, 40, prm("len", 2)),
 			// drops in memory: same model as the on-disk C29 search
 			bfs("lsm", 4, 40, prm("oracle", "c29", "mode", "normal", "keyset", "drop", "keys", 4, "drops", true, "snapshots", false, "l0_tables", 1, "inmemory", true, "nofiles", true, "ops", "Sp1a Sp2a Sq Dp1a F C0 Yp1 Yp Yp1,q Yzz V"))},
 		[]Stage{bfs("lsm", 6, 600, prm("oracle", "c12", "keys", 2, "inmemory", true, "nofiles", true)), bfs("lsm", 6, 600, prm("oracle", "c12", "mode", "normal", "keys", 2, "inmemory", true, "nofiles", true, "ops", "Sa Sb Da Db F C0 C1 O X A")),
